@@ -15,7 +15,7 @@ import (
 
 func init() { Registry["C15"] = runC15 }
 
-const explanationC15 = "Decides structural necessary conditions of C15 on the source of goa's http package: (R15.1) the media-type→codec decision tables of ResponseEncoder (designed content type branch and the Accept negotiation closure), ResponseDecoder and RequestDecoder are each compared row by row with one reference function (json/xml/gob/text families incl. +json/+xml/+gob/+html/+txt suffixes; response default json, request default unsupported), which also makes encoder and decoder agree with each other; (R15.2) every return of ResponseEncoder is preceded by SetContentType with the media type that belongs to the returned encoder (same negotiate call / parsed designed type); (R15.3) no path returns a nil encoder; (R15.4) the unsupported decoder yields the error named by the constant that the status table maps to 415; (R15.5) text codec type tables; (R15.6) SetContentType's composition table against its doc comment; RequestEncoder announces JSON when it encodes JSON; (R15.7) the XML writer and reader of an error response agree field by field (shared R18.4); shared R16.5 (the 404 body is announced with the negotiated type); R15.5 also requires that a text body that cannot be read in full is an error. shared R05.3 (the default error encoder negotiates its encoder, which announces the type, before it writes the status). (R15.8) the debugging wrappers put back as the Body exactly what io.ReadAll read from the Body itself (no capped or filtered view). NOT decided: byte-level round trips through encoding/json|xml|gob, Accept-header grammar (q-values, lists, wildcards are compared as whole strings by the code), behaviour of mime.ParseMediaType."
+const explanationC15 = "Decides structural necessary conditions of C15 on the source of goa's http package: (R15.1) the media-type→codec decision tables of ResponseEncoder (designed content type branch and the Accept negotiation closure), ResponseDecoder and RequestDecoder are each compared row by row with one reference function (json/xml/gob/text families incl. +json/+xml/+gob/+html/+txt suffixes; response default json, request default unsupported), which also makes encoder and decoder agree with each other; (R15.2) every return of ResponseEncoder is preceded by SetContentType with the media type that belongs to the returned encoder (same negotiate call / parsed designed type); (R15.3) no path returns a nil encoder; (R15.4) the unsupported decoder yields the error named by the constant that the status table maps to 415; (R15.5) text codec type tables; (R15.6) SetContentType's composition table against its doc comment; RequestEncoder announces JSON when it encodes JSON; (R15.7) the XML writer and reader of an error response agree field by field (shared R18.4); shared R16.5 (the 404 body is announced with the negotiated type); R15.5 also requires that a text body that cannot be read in full is an error. shared R05.3 (the default error encoder negotiates its encoder, which announces the type, before it writes the status). (R15.8) the debugging wrappers put back as the Body exactly what io.ReadAll read from the Body itself (no capped or filtered view). (R15.9) the content type fixed for a tagged response is set inside the test of its tag (shared with C03/R03.7). NOT decided: byte-level round trips through encoding/json|xml|gob, Accept-header grammar (q-values, lists, wildcards are compared as whole strings by the code), behaviour of mime.ParseMediaType."
 
 var (
 	reMTEq     = regexp.MustCompile(`^\((.+) == "([a-z]+/[a-z]+)"\)$`)
@@ -139,6 +139,7 @@ func runC15(c *an.Ctx) string {
 	mediaLHSConsistency(c, r1, c.Func("http", "RequestDecoder"))
 	r15ResponseDecoder(c)
 	r158BodyTee(c, "R15.8")
+	r037ArmOrder(c, "R15.9") // shared with C03/R03.7: a content type fixed for one response must not be announced for the others
 
 	// RequestDecoder
 	decision(c, r1, c.MustFunc(r1, "http", "RequestDecoder"), an.PathOpts{},
